@@ -164,14 +164,15 @@ PROPS = {
             'header, length prefix and value splitting are NOT proved: BytesMut growth / split_off are out of CBMC\'s reach)',
             'num_enum derives (IntoPrimitive / TryFromPrimitive) are inverse to each other',
         ],
-        assumptions=['round trip + strictness for 51 of the 63 kinds (28 of them have parsers of the form `.map(Constructor)?`, '
-                     'desugared by the extractor: normalisation N8); 12 kinds not covered'],
+        assumptions=['round trip + strictness for 59 of the 63 kinds (34 of them have parsers of the form `.map(Constructor)?`, '
+                     'desugared by the extractor: normalisation N8), incl. the bus-listener filter codec; 4 kinds not covered '
+                     '(Connect2, ConnectReply, ConnectReply2, EmitBusEvent)'],
         undecided_clauses=[
             'byte level of whole frames: 4-byte length prefix equals the frame length, strict parsing of arbitrary bytes',
-            'the 12 kinds with filters / optional fields / bus events / connect data; the Message dispatcher',
+            'Connect2 / ConnectReply / ConnectReply2 (connect data values) and EmitBusEvent; the Message dispatcher',
         ],
-        explanation='per message kind, on the verbatim functions: (51 of 63 kinds) serialize_message writes the kind, exactly '
-                    'the kind\'s field sequence and the payload unchanged; deserialize_message (all 51) accepts exactly the '
+        explanation='per message kind, on the verbatim functions: (59 of 63 kinds) serialize_message writes the kind, exactly '
+                    'the kind\'s field sequence and the payload unchanged; deserialize_message (all 59) accepts exactly the '
                     'frames of that kind whose field sequence is the encoding of some message, with nothing left over, and '
                     'returns that message with the identical payload (round trip and strictness at the level of fields, '
                     'against an assumed field-sequence model of the primitives); MessageBufExt varint/discriminant bytes (Kani)',
